@@ -21,7 +21,22 @@ ENTRIES: List[Tuple[str, Optional[bytes]]] = [
     ("latin1.txt", b"caf\xe9"),
     ("trailing\n", b"x"),
     ("unicode_content.txt", "grüß \U0001F600".encode("utf-8")),
+    ("Types/Gr\u00f6\u00dfe.txt", b"x"),
+    ("sub/vers\u0663.py", b"x"),
+    ("\u00dcnicode.txt", b"x"),
+    ("1st.txt", b"x"),
+    ("Types/2nd/x.py", b"x"),
 ]
+
+_FIRST = set("abcdefghijklmnopqrstuvwxyzABCDEFGHIJKLMNOPQRSTUVWXYZ_")
+_REST = _FIRST | set("0123456789.")
+
+
+def _valid_key(rel: str) -> bool:
+    """A snippet key, written independently of the repository's regular expression: '/'-separated segments, each
+    starting with an ASCII letter or '_' and continuing with ASCII letters, digits, '_' or '.'."""
+    segments = rel.split("/")
+    return all(len(seg) > 0 and seg[0] in _FIRST and all(ch in _REST for ch in seg[1:]) for seg in segments)
 
 
 def _hidden(rel: str) -> bool:
@@ -34,7 +49,7 @@ def _expected(entries: List[Tuple[str, Optional[bytes]]]) -> Tuple[Optional[Dict
     for rel, content in entries:
         if content is None or _hidden(rel):
             continue
-        if SI.IMPLEMENTATION_KEY_RE.fullmatch(rel) is None:
+        if not _valid_key(rel):
             bad.append(rel)
             continue
         try:
